@@ -444,6 +444,7 @@ func init() {
 			{Name: "BIT-ITF8", What: "abstract interpretation (bit provenance) of itf8.Encode/Decode/Len against the CRAM layout for all 2^32 values and all byte strings of length 0..9 by first-byte class", Floor: 50, Run: ruleBitTF(specITF8())},
 			{Name: "BIT-LTF8", What: "the same for ltf8 and all 2^64 values", Floor: 90, Run: ruleBitTF(specLTF8())},
 			{Name: "TF-STREAM", What: "cram stream readers fetch one byte, then exactly buf[1:n]", Floor: 2, Run: ruleTFStream},
+			{Name: "STREAM-EOF", What: "the cram stream readers replace an io.EOF from the read of a value's announced remainder by io.ErrUnexpectedEOF: fewer bytes than the first byte announced is a failure, not the clean end every layer above takes io.EOF for (added for a defect of the unchanged tree, repaired f9028f6)", Floor: 2, Run: ruleStreamEOF},
 		},
 		Explanation: "Proof by abstract interpretation of the go/ssa form of Encode, Decode and Len in a per-bit provenance domain: each path of Encode is a length class (an interval of the unsigned input obtained from the comparisons on the path); on each class the bytes stored are compared bit by bit with the CRAM specification's layout, Decode is then interpreted on those abstract bytes and must return the input bits, the class length and ok. Decode alone is interpreted for every first-byte class × available length 0..9 with all other bits symbolic: announced length, ok ⇔ enough bytes, no read at or beyond the announced length, value equal to the specification's decoding. Any branch the interpreter cannot decide, any out-of-range index and any reachable panic is a failed obligation.",
 		NotDecided:  "the unused high nibble of the fifth ITF-8 byte (unspecified by the format, treated as don't-care).",
